@@ -3,7 +3,7 @@
 
    * instance parameters: every exported vlsir.Param has a name, names are unique per instance, and its ParamValue
      has a value set (the package printer writes an un-set ParamValue as a string starting with "?").
-     from_proto raises `Invalid Parameter Type: None`, the netlisters `Invalid Param type None` otherwise.
+     from_proto and the netlisters raise a ValueError about the value type (None) otherwise.
    * the netlisters write into ONE flat name space per kind (vlsirtools/netlist/base.py): a Module is named by the
      last dotted segment of its qualified name (non-alphanumerics replaced by `_`), an instantiated ExternalModule by
      its bare name - separately for sub-circuits (spicetype SUBCKT) and for SPICE models (every other spicetype).
